@@ -430,8 +430,19 @@ class Check:
                     idx = [i for i in idx if len(sx.enc(encs[i])) < 4000 and not isinstance(model_outs[i], str)][:k]
                     obligations.append(self.model.coq_crosscheck(
                         self.model_fn[0], self.model_fn[1], [encs[i] for i in idx], [model_outs[i] for i in idx]))
+            harness_errors = 0
             for i, c in enumerate(allcases):
-                obs = self.impl(c)
+                try:
+                    obs = self.impl(c)
+                except Exception:
+                    # the driver of the real code failed on this case: the correspondence is broken for it
+                    import traceback
+                    harness_errors += 1
+                    disagreements.append((c, None, model_outs[i], 'driver of the implementation failed: '
+                                          + traceback.format_exc()[-600:]))
+                    if harness_errors > 20:
+                        break
+                    continue
                 n_eval += 1
                 key = self.nontrivial(c, obs)
                 if key is not None:
